@@ -880,7 +880,8 @@ async fn run_hist(gt: &Term, groups: &Term, peers: &Term, ops: &Term) -> Option<
         None => None,
         Some(c) => match c.as_list()? {
             [id, members] => Some(ConfederationConfig {
-                id: u_of(id, u32::MAX as u64)? as u32,
+                // the configuration loader never installs a confederation with identifier 0
+                id: u_of(id, u32::MAX as u64).filter(|x| *x != 0)? as u32,
                 members: members
                     .as_list()?
                     .iter()
